@@ -52,9 +52,11 @@ def process_signature(app, what, name, obj, options,
         return sig, return_annotation
     if isinstance(obj, instancemethod): # python 2 unbound methods
         obj = obj.__func__
-    if isinstance(parent, type) and callable(obj):
-        obj = _util.safe_get(obj, object(), type(parent))
     try:
+        if isinstance(parent, type) and callable(obj):
+            # slot wrappers and method descriptors of extension types
+            # refuse to be bound to a plain object (TypeError)
+            obj = _util.safe_get(obj, object(), type(parent))
         sig = specifiers.signature(obj).evaluated()
     except (TypeError, ValueError):
         # inspect.signature raises ValueError if obj is callable but it can't
